@@ -8,7 +8,9 @@ Abstract netlist
           'style': 'cells' | 'forks',               Verilog-like port cells / bench-like port forks
           'w': {src: 'D'|'F'|'C'|'L'},              wiring of every read signal: direct line, one fork, fork chain (2 deep), long chain (3 deep)
           'ports': [label, ...],                    order of ports in io_nodes ('i<k>' / 'o<k>')
-          'rev': bool}                              create gate nodes in reverse order
+          'rev': bool,                              create gate nodes in reverse order
+          'strev': bool,                            create the state elements in reverse order (order in s_nodes)
+          'frev': bool}                             create the forks of a chain and their fan-out lines before the forks and lines feeding them
     sources: 'i<k>', 's<k>' (true output of state element k), 'n<k>' (inverted output of flip-flop k), 'g<k>'.
 """
 from hypothesis import strategies as st
@@ -61,7 +63,7 @@ def pick(r, avail):
 
 
 DEFAULT_CFG = dict(max_pi=5, max_st=3, max_g=14, open_pins=True, open_outs=True, latches=True,
-                   styles=('cells', 'forks'), families=None, min_g=0, clock_pins=True, po_taps=3)
+                   styles=('cells', 'forks'), families=None, min_g=0, clock_pins=True, po_taps=3, shift_regs=False)
 
 
 @st.composite
@@ -78,7 +80,7 @@ def netlists(draw, **kw):
                            min_size=nst, max_size=nst))
     raw_po = draw(st.lists(st.integers(0, 1 << 16), min_size=0, max_size=cfg['po_taps']))
     raw_w = draw(st.integers(0, (1 << 62)))
-    rev = draw(st.booleans())
+    rev = draw(st.sampled_from(list(range(8))))      # bit 0: gate nodes created in reverse order, bit 1: fork chains created downstream first, bit 2: state elements created last one first
     port_perm = draw(st.integers(0, 1 << 30))
     return make_netlist(npi, style, raw_g, raw_st, raw_po, raw_w, rev, port_perm, cfg)
 
@@ -114,9 +116,11 @@ def make_netlist(npi, style, raw_g, raw_st, raw_po, raw_w, rev, port_perm, cfg):
         if fl & 128 and fl & 32 and not cfg.get('need_d'):
             continue                               # state element without any input pin (pure pseudo input)
         states[k]['d'] = pick(rd, every)
+        if cfg.get('shift_regs') and rd % 4 == 3 and len(states) >= 2:      # shift-register structure: the data pin hangs on another state element
+            states[k]['d'] = f's{(k + 1 + (rd >> 2) % (len(states) - 1)) % len(states)}'
         if cfg['clock_pins'] and fl & 16:
             states[k]['c'] = every[rc % len(every)]
-    nl = dict(pi=npi, st=states, g=gates, po=[], style=style, w={}, ports=[], rev=bool(rev))
+    nl = dict(pi=npi, st=states, g=gates, po=[], style=style, w={}, ports=[], rev=bool(rev & 1), frev=bool(rev & 2), strev=bool(rev & 4))
     # outputs
     allsig = [s for s in avail]
     po = []
